@@ -13,7 +13,7 @@ ROOTS = (T + "timezone::TimeZone::from_tz_data", T + "timezone::TimeZone::from_p
 def run(chk, tier):
     P = Prog("default")
     chk.configs.add("default")
-    for r in (r_absint, r_block_order, r_header_order, r_header_counts, r_tz_string_consumed, r_hms_weights, r_rule_boxes, r_validate, r_validate_cover, r_validate_leaps, r_record_layout, r_offset_sign, r_data_indices, r_ltt_box, r_footer, r_capacity, r_header_consts):
+    for r in (r_absint, r_block_order, r_header_order, r_header_counts, r_tz_string_consumed, r_hms_weights, r_rule_boxes, r_validate, r_validate_cover, r_validate_leaps, r_record_layout, r_offset_sign, r_data_indices, r_ltt_box, r_footer, r_capacity, r_header_consts, r_footer_extensions):
         chk.guarded(r, P, tier)
     chk.assume("that every conforming file is accepted and decoded to exactly the written transitions/types/rule is not decided (value-level)")
     return {
@@ -560,6 +560,45 @@ def r_header_consts(chk, P, tier):
         if v[0] == "agg" and sw:
             vers[sw[-1][2]] = v[3]
     chk.expect(vers == {0: "V1", 50: "V2", 51: "V3"}, "versions", "version byte mapping %s" % vers, loc=P.loc(fn))
+
+
+def r_footer_extensions(chk, P, tier):
+    """the footer grammar extensions (signed / beyond-24 h rule times) belong to version 3 files only (RFC 8536 3.3.1): the flag handed to
+    TransitionRule::from_tz_string is `version == V3`. Two spellings are read: the derived `==` with the V3 constant, and a match on the
+    version's discriminant that selects a constant flag; any other spelling is left undecided (recorded as an assumption, no alarm)."""
+    chk.rule("WHO.footer_extensions", "parser::parse enables the footer-string extensions for Version::V3 and for no other version", floor=1)
+    fn = T + "parser::parse"
+    FT = T + "rule::TransitionRule::from_tz_string"
+    verdicts, unknown = set(), 0
+    for p in Sym(P, fn).paths():
+        for c in p.calls:
+            if c[1] != FT:
+                continue
+            a = c[2][1]
+            if is_call(a, suffix="parser::Version as std::cmp::PartialEq>::eq"):
+                vs = [x[1][1][1] for x in walk_terms(a) if x[0] == "const" and isinstance(x[1], tuple) and len(x[1]) > 1 and x[1][0] == ("adt", T + "parser::Version")]
+                verdicts.add(("eq", tuple(vs)))
+            elif a[0] == "const" and isinstance(a[1], bool):
+                sw = [k for k in p.conds if k[0][0] == "switch" and k[1][0] == "discr"
+                      and any(is_call(x, suffix="parser::State::<'a>::new") and x[2][1] == ("const", False) for x in walk_terms(k[1]))]
+                if not sw:
+                    unknown += 1
+                    continue
+                v = sw[-1][2]
+                if isinstance(v, tuple):       # ('else', excluded values)
+                    is_v3 = None if 2 not in v[1] else False
+                else:
+                    is_v3 = (v == 2)
+                verdicts.add(("switch", a[1], is_v3))
+            else:
+                unknown += 1
+    if not verdicts and not unknown:
+        raise AnchorLost("parser::parse does not call from_tz_string")
+    if unknown and not verdicts:
+        chk.assume("the footer-extension flag of parser::parse is computed in a form this rule does not read; not decided")
+        return
+    bad = [v for v in verdicts if (v[0] == "eq" and v[1] != ("V3",)) or (v[0] == "switch" and (v[2] is None or v[1] != v[2]))]
+    chk.expect(not bad, "flag", "parser::parse enables footer extensions for other versions than V3: %s" % sorted(map(str, bad)), loc=P.loc(fn))
 
 
 def r_header_counts(chk, P, tier):
